@@ -104,12 +104,32 @@ pub fn programs(tier: Tier) -> ProgramSet {
         s8.aci = true;
         s8.variants[0].aci = None;
         s8.variants[1].aci = Some(Aci::False);
+        {
+            let mut sm = EnumSpec::base(3);
+            sm.parse_err = true;
+            sm.syntax.push("err-fn-in-mod-phf".into());
+            let source = render(&sm);
+            out.push(Program { idx: 0, label: "B3 + parse_err_ty / parse_err_fn named through a user module called `phf`".into(), k: 2, spec: sm, aux: json!(null), source });
+        }
         for nm in ["Map", "PHF", "Value", "Option", "S"] {
             let mut sn = EnumSpec::base(3);
             sn.aci = nm == "PHF";
             sn.syntax.push(format!("phf-twin-named:{}", nm));
             let source = render(&sn);
             out.push(Program { idx: 0, label: format!("B3 + the use_phf enum is called `{}`", nm), k: 1, spec: sn, aux: json!(null), source });
+        }
+        let mut s9 = EnumSpec::base(3);
+        s9.variants[0].aci = Some(Aci::Bare);
+        s9.variants[1].serialize = vec!["KK".into(), "exit".into()];
+        let mut s10 = s9.clone();
+        s10.variants[1].serialize = vec!["exit".into()];
+        s10.variants[1].to_string = Some("kK".into());
+        for (sp, lab) in [(s9, "v0.ascii_case_insensitive + v1.serialize=[\"KK\", \"exit\"] (one of two names shadowed)"), (s10, "v0.ascii_case_insensitive + v1.serialize=\"exit\" + v1.to_string=\"kK\"")] {
+            if domain(&sp) {
+                let source = render(&sp);
+                let aux = overlap_aux(&sp);
+                out.push(Program { idx: 0, label: format!("B3 + {}", lab), k: 3, spec: sp, aux, source });
+            }
         }
         for (sp, lab) in [(s6, "v0: disabled + ascii_case_insensitive, v1.serialize=\"kk\""), (s7, "default variant first with ascii_case_insensitive, v1.serialize=\"dd\""), (s8, "enum-level ascii_case_insensitive + v0.disabled + v1.serialize=\"kk\" (= false)")] {
             if domain(&sp) {
@@ -152,6 +172,17 @@ pub fn render(spec: &EnumSpec) -> String {
     p.syntax.retain(|x| !x.starts_with("phf-twin-named:"));
     let mut e_spec = spec.clone();
     e_spec.syntax.retain(|x| !x.starts_with("phf-twin-named:"));
+    // the custom error type and function are reached through a user module that happens to be called `phf`
+    let err_in_mod_phf = e_spec.syntax.iter().any(|x| x == "err-fn-in-mod-phf");
+    if err_in_mod_phf {
+        for sp in [&mut e_spec, &mut p] {
+            sp.syntax.retain(|x| x != "err-fn-in-mod-phf");
+            sp.parse_err = false;
+            sp.extra_attrs.push("#[strum(parse_err_ty = phf::MyErr, parse_err_fn = phf::my_err)]".into());
+        }
+        o.push_str("#[allow(unused_imports)]\nmod phf { pub use vf_core::{my_err, MyErr}; }\n");
+    }
+    let counted_obs = spec.parse_err;
     let spec = &e_spec;
     if let Some(n) = &twin_name {
         p.name = n.clone();
@@ -187,7 +218,7 @@ pub fn run(ctx: &mut vf_core::Ctx) {
 }
 "#;
     // with a custom error function every observation also carries how often that function ran during the call
-    let body = if spec.parse_err {
+    let body = if counted_obs {
         body.replace("|s: &str| obs_e(", "|s: &str| vf_core::props::c16::counted(&mut || obs_e(")
             .replace("|s: &str| obs_p(", "|s: &str| vf_core::props::c16::counted(&mut || obs_p(")
             .replace("from_str(s)));", "from_str(s))));")
